@@ -7,12 +7,17 @@ the public compile_prolog_from_string.  The model (evaluated inside Coq) returns
 and either the stage that refuses the text or the AST."""
 import re, random
 from lib import ast_io
+from lib import emitcheck as E
 from lib.terms import g_str
 
 ID = 'C10'
-IMPORTS = ['Lang.Front']
+IMPORTS = ['Lang.Ast', 'Lang.Front', 'Comp.RunCompile']
 THEOREMS = ['C10_rule_scan_exact', 'C10_rule_scan_none', 'C10_lex_maximal_munch', 'C10_lex_exact', 'C10_lex_error_spec',
-            'C10_lex_complete', 'C10_parse_yield', 'C10_ast_clause_count', 'C10_front_whole_input']
+            'C10_lex_complete', 'C10_parse_yield', 'C10_ast_clause_count', 'C10_front_whole_input',
+            'C10_parse_complete', 'C10_parse_complete_fuel', 'C10_parse_spec', 'C10_parse_none_spec', 'C10_parse_unambiguous',
+            'C10_front_rejects_non_sentences', 'C10_front_spec', 'C10_front_none_spec', 'C10_canonical_tree_exists', 'C10_parse_canonical_exact', 'C10_canonical_unique',
+            'C10_term_fuel_monotone', 'C10_compile_whole_program', 'C10_front_compile_whole',
+            'C10_compile_front_rejects_non_sentences', 'C10_compile_front_whole']
 RULE = ('source texts: (a) sentences derived at random from the grammar prolog.g4 itself (every alternative, including '
         '=(a,b), unary operators, name/arity, numeral-named compounds, foo(), [a,|T], nested parentheses, directives), '
         '(b) programs printed from random ASTs, both rendered with random spacing, line breaks and % comments, and (c) every '
@@ -103,10 +108,29 @@ VARIABLES = ['X', 'Y', 'Z', '_', '_', '_G1', 'Abc', '_x', 'X1']
 UNOPS = ['-', '+']
 BINOPS = ['=', '\\=', '==', '\\==', '<', '>', '=<', '>=']
 
+_CP_RANGES = [(0x20, 0x7e), (0x20, 0x7e), (0xa0, 0xff), (0x100, 0x24f), (0x370, 0x3ff), (0x400, 0x4ff), (0x300, 0x36f), (0x4e00, 0x4fff),
+              (0x1f600, 0x1f64f), (0x1, 0x1f), (0x7f, 0x9f), (0x2000, 0x206f), (0xfe00, 0xfe0f), (0xfff0, 0xffff), (0x10000, 0x1007f),
+              (0xe0000, 0xe007f), (0x10fff0, 0x10ffff), (0x5d0, 0x5ea), (0x600, 0x6ff)]
+
+def rnd_cp(rng):
+    lo, hi = rng.choice(_CP_RANGES)
+    return chr(rng.randint(lo, hi))
+
+def rnd_quoted(rng):
+    """a quoted atom with random content: any code points except backslash (and no surrogates), quotes written as \\'"""
+    n = rng.choice([0, 1, 1, 2, 3, 5, 8])
+    body = ''
+    for _ in range(n):
+        c = rnd_cp(rng)
+        if c == '\\': c = '/'
+        body += c
+    return "'" + body.replace("'", "\\'") + "'"
+
 def g_atom(rng, callable_bias=False):
     r = rng.random()
     if r < 0.7: return rng.choice(ATOMS)
-    if r < 0.88: return rng.choice(STRINGS)
+    if r < 0.80: return rng.choice(STRINGS)
+    if r < 0.88: return rnd_quoted(rng)
     if r < 0.98: return rng.choice(ATOMS)
     return rng.choice(NUMERALS)
 
@@ -161,6 +185,7 @@ def g_pe(rng, depth):
     if depth <= 0:
         return g_simple(rng, 1)
     r = rng.random()
+    if r < 0.04: return ['fail', ','] + g_pe(rng, depth - 1)        # dead code: the compiler drops what follows `fail`
     if r < 0.35: return g_simple(rng, rng.choice([1, 2]))
     if r < 0.45: return ['\\+'] + g_pe(rng, depth - 1)
     if r < 0.65: return g_pe(rng, depth - 1) + [','] + g_pe(rng, depth - 1)
@@ -234,7 +259,8 @@ def group(prog):
 
 # ------------------------------------------------------------------ corruptions
 
-FOREIGN = ['#', '"', '{', '}', '\x00', 'é', 'λ', '\U0001F600', '$', '&', '~', '^', '*', '?', '@', '`', '\\', ':', '\x0c', ' ', ' ']
+FOREIGN = ['\xa0', '\u2028', '\x0b', '\x85', '\ufeff', '\u3000', '\u200b', 'É', 'ß', 'ａ', '１', '＿', '’', '‘', '«', '\u0301', '\U0001F600',
+           '#', '"', '{', '}', '\x00', 'é', 'λ', '\U0001F600', '$', '&', '~', '^', '*', '?', '@', '`', '\\', ':', '\x0c', ' ', ' ']
 INSERTABLE = ['.', ':-', '\\+', ',', '->', ';', '(', ')', '/', '|', 'true', 'fail', '!', 'X', '_', 'a', 'foo', '7', '-', '=',
               "'s'", '[', ']', ',', ',', ')', '.', '(']
 
@@ -267,7 +293,7 @@ def corruptions(rng, clauses, n):
         elif k == 'char-replace':
             i = rng.randrange(len(base)); src = base[:i] + rng.choice(list(".,()'|[]:-;\\% aX_1") + FOREIGN) + base[i + 1:]
         elif k == 'foreign':
-            i = rng.randrange(len(base) + 1); src = base[:i] + rng.choice(FOREIGN) + base[i:]
+            i = rng.randrange(len(base) + 1); src = base[:i] + (rng.choice(FOREIGN) if rng.random() < 0.7 else rnd_cp(rng)) + base[i:]
         elif k == 'unterminated-end':
             src = base + rng.choice([" 'unterminated", " foo('abc", "'", " 'it\\'", "\n'x\n"])
         elif k == 'unterminated-boundary':
@@ -350,12 +376,23 @@ def builtin_corpus():
         "p :- !, q ; r.", "p :- !.", "p :- fail ; true.", "p(fail).", "p :- failx.", "p :- true_x.", "true_x.", "p :- truely, failing.",
         "x :- 'it\\'s'('a\\'b').", "p('').", "p('\\'').", "p(''').", "p('a''b').", "p('\\\\').", "p('a\nb').", "p('%').", "p('a' 'b').",
         "p(a). % c1\n% c2\nq(b). % c3\n", "p(a). %\nq(b).", "p(a). % c1\r q(b).", "p(a). % c1\r\nq(b).\r\n", "p(%c\na).", "p('%c\na').",
-        "p :- q, % c\n r.", "p(007).", "p(0). p(00).", "p(1a).", "p(1A).", "p(1_).", "p(a1B_2).", "p(_1).", "p(__).", "p(_a_).",
+        "p :- q, % c\n r.", "p(007).",
+        # a compound term / goal named by a numeral is refused only where the compiler reaches it (dead code after fail is dropped)
+        "p:-fail,failx,failx(c),42(),!.failx.", "p :- fail, q(1(a)).", "p :- fail, 1(a).", "p :- (a -> fail), 1(a).", "p :- (fail ; a), 1(a).",
+        "p :- \\+ fail, 1(a).", "p :- fail ; 1(a).", "p :- (fail, 1(a)) ; b.", "p :- fail, X = 1(a).", "p :- fail, a/1.", "p :- fail, q(a/1).",
+        "p(1(a)) :- fail.", "p :- fail, (1(a) -> b ; c).", "p :- a, fail, 1(b).", "p :- !, fail, 1(b).", "p :- (a, fail), 1(b).",
+        "p :- fail -> 1(a) ; b.", "p :- (fail -> a ; b), 1(a).", "p :- fail, 1.", "p :- fail, X.", "p :- fail, q(1(a/2)).", "p :- fail, 007(_).",
+        "p :- fail, q(_, 1(_)). r(_).", "p :- true, 1(a).", "p :- fail, fail, 1(a).", "p :- (fail, a ; fail, 2(b)), c.", "p(0). p(00).", "p(1a).", "p(1A).", "p(1_).", "p(a1B_2).", "p(_1).", "p(__).", "p(_a_).",
     ]
     return [{'src': s, 'kind': 'corpus', 'base_clauses': 1} for s in srcs]
 
 def model_expr(case):
-    return '(run_both %s)' % g_str(case['src'])
+    # token stream and front end (Lang/Front.v); verdict and emitted text of the whole pipeline (Comp/RunCompile.v: compile_text =
+    # front, compile_program, the compiler's own refusals, emit_program with the model of repr(), CPython's size limits)
+    from lib.pyrepr_check import cps, g_cps, printable_table
+    c = cps(case['src'])
+    tbl = '; '.join('%d%%N' % x for x in printable_table(c))
+    return '(let s0 := %s in OL [run_lex s0; run_front s0; run_compile_text [%s] s0])' % (g_cps(c), tbl)
 
 # ------------------------------------------------------------------ implementation
 
@@ -384,11 +421,36 @@ def impl(case):
         out['tokens'] = _exc(e)
     try:
         code = C.compile_prolog_from_string(src)
-        out['compile'] = ['ok', sorted(set(re.findall(r'^def (\w+)\(', code, re.M)))]
+        out['compile'] = ['ok', sorted(set(re.findall(r'^def (\w+)\(', code, re.M))), code]
+        out['verdict'] = 'text'
     except RecursionError:
         raise
     except Exception as e:
         out['compile'] = _exc(e) + ['too large' in str(e)]
+        cls, msg = type(e).__name__, str(e)
+        out['verdict'] = ('too-large' if cls == 'CompilerError' and 'program too large for Python' in msg else
+                          'reject-numeral' if cls == 'ValueError' and 'integer string conversion' in msg else 'reject-front')
+    # the other public entry points of the same pipeline: compile_prolog_from_file and the command line (yldpc)
+    try:
+        import os, click.testing
+        d = os.path.join(os.path.dirname(os.path.dirname(os.path.dirname(os.path.abspath(__file__)))), '.work', 'c10files')
+        os.makedirs(d, exist_ok=True)
+        path = os.path.join(d, 'case-%d.pl' % os.getpid())
+        with open(path, 'wb') as f:
+            f.write(src.encode('utf-8'))
+        try:
+            out['file'] = ['ok', C.compile_prolog_from_file(path)]
+        except RecursionError:
+            raise
+        except Exception as e:
+            out['file'] = _exc(e)
+        res = click.testing.CliRunner().invoke(C.main, [path])
+        out['cli'] = [res.exit_code, res.output if res.exit_code == 0 else ('def ' in (res.output or ''))]
+        os.unlink(path)
+    except RecursionError:
+        raise
+    except UnicodeEncodeError:
+        out['file'] = out['cli'] = None
     try:
         out['ast'] = ['ok', ast_io.impl_parse(src)]
     except RecursionError:
@@ -406,7 +468,7 @@ def _accepted(io):
 def compare(case, io, mo):
     if not isinstance(io, dict):
         return None
-    mlex, mfront = mo
+    mlex, mfront, mtext = mo
     if case['kind'] in ('grammar', 'valid-ast', 'valid-ast-spaced') and mfront[0] in ('lex-error', 'parse-error'):
         return 'tie: the model refuses a sentence derived from the grammar (%s)' % mfront[0]
     # token streams
@@ -424,22 +486,52 @@ def compare(case, io, mo):
             return 'the model refuses this text (%s) but compile_prolog_from_string returns code' % mfront[0]
         if mfront[0] in ('lex-error', 'parse-error') and io['ast'][0] == 'ok':
             return 'the model refuses this text (%s) but the implementation front end builds an AST' % mfront[0]
+        if mfront[0] in ('lex-error', 'parse-error') and io['compile'][1] != 'CompilerSyntaxError':
+            return 'tie: a text outside the grammar (%s) is refused with %s instead of CompilerSyntaxError' % (mfront[0], io['compile'][1])
         if mfront[0] == 'refused' and io['ast'] == ['raised', 'CompilerSyntaxError']:
             return 'tie: the implementation reports a syntax error for a sentence of the grammar (which the visitor refuses)'
+        if mtext[0] != 'reject-front':
+            return 'tie: the front end model refuses the text, the pipeline model does not (%s)' % mtext[0]
         return None
     prog = group(mfront[1])
     if io['ast'][0] != 'ok':
-        return 'tie: the model accepts this text, the implementation front end raises %s' % io['ast'][1]
+        return 'tie: the model front end has an AST for this text, the implementation front end raises %s' % io['ast'][1]
     if io['ast'][1] != prog:
         return 'the AST built by the implementation differs from the model AST (clauses omitted, altered or reordered)'
-    if not _accepted(io):
-        if io['compile'][1] == 'CompilerError' and io['compile'][2]:
-            return None
-        return 'tie: the model accepts this text, compile_prolog_from_string raises %s' % io['compile'][1]
-    want = sorted({'%s_%d' % (g[0], g[1]) for g in prog})
-    if io['compile'][1] != want:
-        return 'the compiled code defines %r, the model program has the predicates %r' % (io['compile'][1], want)
+    # the whole pipeline (Comp/CompileText.compile_text): verdict -- text / refused by the compiler itself (a compound term named
+    # by a numeral that the compiler reaches; a numeral beyond int()'s limit) / too large for CPython -- and, when text is
+    # returned, the text itself, byte for byte: every clause of the source, in order, nothing else
+    r = E.compare_verdicts(case['src'], io['verdict'], io['compile'][2] if _accepted(io) else None, mtext)
+    if r:
+        return 'whole pipeline: ' + r
+    if _accepted(io):
+        _STATS['text_compared'] += 1
+        want = sorted({'%s_%d' % (g[0], g[1]) for g in prog})
+        if io['compile'][1] != want:
+            return 'the compiled code defines %r, the model program has the predicates %r' % (io['compile'][1], want)
     return None
+
+_STATS = {'text_compared': 0}
+
+def _plain(st):
+    return all(32 <= ord(ch) < 127 and ch not in "'\\" for ch in st)
+
+def _repr_simple(prog):
+    def term(t):
+        k = t[0]
+        if k in ('atom',): return _plain(t[1])
+        if k in ('num', 'var'): return True
+        if k == 'fun': return _plain(t[1]) and all(term(a) for a in t[2])
+        if k == 'list': return all(term(a) for a in t[1])
+        if k == 'pair': return term(t[1]) and term(t[2])
+        return False
+    def body(b):
+        k = b[0]
+        if k == 'call': return _plain(b[1]) and all(term(a) for a in b[2])
+        if k in ('and', 'or', 'if'): return body(b[1]) and body(b[2])
+        if k == 'not': return body(b[1])
+        return True
+    return all(_plain(c[0]) and all(term(a) for a in c[1]) and body(c[2]) for c in prog)
 
 def oracle(case, io):
     """conditions that need no model"""
@@ -453,6 +545,18 @@ def oracle(case, io):
         want = sorted({'%s_%d' % (g[0], g[1]) for g in io['ast'][1]})
         if io['compile'][1] != want:
             return 'compiled code defines %r but the text has clauses for %r' % (io['compile'][1], want)
+    # one pipeline behind every entry point: same verdict, same text; a refused text leaves no compiled output at all
+    if io.get('file') is not None:
+        if _accepted(io):
+            if io['file'] != ['ok', io['compile'][2]]:
+                return 'compile_prolog_from_file disagrees with compile_prolog_from_string on an accepted text: %r' % (io['file'][:2],)
+            if io['cli'] != [0, io['compile'][2]]:
+                return 'the command line compiler does not print the library\'s text for an accepted text (exit code %r)' % (io['cli'][0],)
+        else:
+            if io['file'][0] == 'ok':
+                return 'compile_prolog_from_file returns code for a text that compile_prolog_from_string refuses (%s)' % io['compile'][1]
+            if io['cli'][0] == 0 or io['cli'][1]:
+                return 'the command line compiler exits with %r / emits definitions for a text that the library refuses (%s)' % (io['cli'][0], io['compile'][1])
     if 'expect_ast' in case:
         if io['ast'][0] != 'ok':
             return 'a program printed from an AST is refused (%s)' % io['ast'][1]
@@ -476,6 +580,15 @@ def nontrivial(case, io):
 def describe(case):
     return {'source': case['src'], 'kind': case['kind']}
 
+def _shrunk(case, src):
+    """a smaller text is no longer what the generator promised (grammar-derived, printed from an AST, a non-sentence by
+    construction): it is re-labelled, so that only the conditions that hold for ANY text are applied to it"""
+    c = {k: v for k, v in case.items() if k not in ('expect_ast', 'must_reject')}
+    c['src'] = src
+    c['kind'] = 'shrunk'
+    c['shrunk_from'] = case.get('shrunk_from', case['kind'])
+    return c
+
 def shrink(case):
     src = case['src']
     toks = tokenize(src, keep_skipped=True)
@@ -484,26 +597,26 @@ def shrink(case):
         n = len(src)
         for a, b in ((0, n // 2), (n // 2, n), (0, n // 4), (n - n // 4, n)):
             if b > a:
-                c = dict(case); c['src'] = src[:a] + src[b:]; c.pop('expect_ast', None); c.pop('must_reject', None)
+                c = _shrunk(case, src[:a] + src[b:])
                 yield c
         for i in range(min(n, 40)):
-            c = dict(case); c['src'] = src[:i] + src[i + 1:]; c.pop('expect_ast', None); c.pop('must_reject', None)
+            c = _shrunk(case, src[:i] + src[i + 1:])
             yield c
         return
     # remove whole clauses (up to a full stop), then single tokens
     cuts = [i for i, t in enumerate(toks) if t == '.']
     start = 0
     for e in cuts:
-        c = dict(case); c['src'] = ''.join(toks[:start] + toks[e + 1:]); c.pop('expect_ast', None); c.pop('must_reject', None)
+        c = _shrunk(case, ''.join(toks[:start] + toks[e + 1:]))
         yield c
         start = e + 1
     for i in range(min(len(toks), 50)):
-        c = dict(case); c['src'] = ''.join(toks[:i] + toks[i + 1:]); c.pop('expect_ast', None); c.pop('must_reject', None)
+        c = _shrunk(case, ''.join(toks[:i] + toks[i + 1:]))
         yield c
 
 def distribution(cases, obs):
     d = {'by_kind': {}, 'accepted': 0, 'rejected_by_lexer': 0, 'rejected_by_parser': 0, 'rejected_later': 0,
-         'too_large': 0, 'length_hist': {}, 'clauses_hist': {}}
+         'too_large': 0, 'length_hist': {}, 'clauses_hist': {}, 'emitted_text_compared_with_model': _STATS['text_compared']}
     for c, o in zip(cases, obs):
         if not isinstance(o, dict):
             continue
